@@ -265,6 +265,18 @@ def pinned(x):
 def declared(x):
     c02fns.REC.add(("declared", x))
     return plain(x) + 4
+
+
+@memento_function(cluster="cv", version="1")
+def twin_a(x):
+    c02fns.REC.add(("twin_a", x))
+    return [x, "same bytes"]
+
+
+@memento_function(cluster="cv", version="1")
+def twin_b(x):
+    c02fns.REC.add(("twin_b", x))
+    return [x, "same bytes"]
 """
 LATE_SRC = """from twosigma.memento import memento_function
 
@@ -335,6 +347,34 @@ def modifier_scenario(chk, root):
                                                   late_registration=late, executions=len(runs)))
                             elif len(set(vals)) > 1 or (how != "ignore_result" and len(vals) != 2):
                                 fails.append(dict(clause="transparent-outcome", fn=fname, modifier=how, order=first, backend=backend, values=[a, b]))
+                # forgetting makes exactly that call run again: two functions with byte-equal results, one of them forgotten;
+                # then the whole cluster forgotten and the same content produced again (a new backend object on the same store =
+                # a restart, for the filesystem backends)
+                def reopen():
+                    if backend != "memory":
+                        st2 = FilesystemStorageBackend(path=os.path.join(d, "s"), **({"memory_cache_mb": 1} if backend == "fs+cache" else {}))
+                        m.Environment.set(Environment(name="cv", base_dir=d, repos=[ConfigurationRepository(name="r", clusters={"cv": FunctionCluster(name="cv", storage=st2)})]))
+                steps = [("twin_a(1)", lambda: mod.twin_a(1), [("twin_a", 1)]), ("twin_b(1)", lambda: mod.twin_b(1), [("twin_b", 1)]),
+                         ("twin_a.forget(1)", lambda: mod.twin_a.forget(1), []), ("restart", reopen, []),
+                         ("twin_b(1) after twin_a(1) was forgotten", lambda: mod.twin_b(1), []), ("twin_b(1) again", lambda: mod.twin_b(1), []),
+                         ("twin_a(1) after it was forgotten", lambda: mod.twin_a(1), [("twin_a", 1)]), ("twin_a(1) again", lambda: mod.twin_a(1), []),
+                         ("forget_cluster", lambda: m.forget_cluster("cv"), []),
+                         ("twin_a(1) after the cluster was forgotten", lambda: mod.twin_a(1), [("twin_a", 1)]),
+                         ("twin_a(1) once more", lambda: mod.twin_a(1), []), ("restart", reopen, []), ("twin_a(1) after a restart", lambda: mod.twin_a(1), []),
+                         ("twin_b(1) after the cluster was forgotten", lambda: mod.twin_b(1), [("twin_b", 1)]), ("twin_b(1) once more", lambda: mod.twin_b(1), [])]
+                for text, thunk, want_runs in steps:
+                    c02fns.REC.calls.clear()
+                    try:
+                        thunk()
+                    except Exception as e:
+                        fails.append(dict(clause="no-internal-error", fn="twin", modifier="forget", order=text, backend=backend, late_registration=late, error=repr(e)[:200]))
+                        break
+                    runs = [c for c in c02fns.REC.calls if c[0].startswith("twin")]
+                    if runs != want_runs:
+                        fails.append(dict(clause="forget-reruns-exactly-that-call", fn="twin", modifier="forget", order=text, backend=backend, late_registration=late,
+                                          executed=runs, expected=want_runs))
+                        break
+                chk.count("forget-scenarios")
                 shutil.rmtree(d, ignore_errors=True)
     finally:
         m.Environment.set(orig)
